@@ -1,16 +1,17 @@
 import RoaringModel.Lemmas.TreemapIterAdvance
 import RoaringModel.Lemmas.TreemapIntoIter
+import RoaringModel.Lemmas.TreemapIter32
 import RoaringModel.SpecCursor64
 /-!
 # C12 — 64-bit iteration is an exact ascending double-ended cursor (property theorems)
 
 The model of `treemap::Iter` (TreemapIter.lean) is parametrised by the inner 32-bit iterator `K : Inner`.
-All theorems hold for **every** `K` that satisfies the C03 cursor specification `S : InnerSpec K`
+The `_partial` theorems hold for **every** `K` that satisfies the C03 cursor specification `S : InnerSpec K`
 (`rem`/`Inv` with `next = pop front`, `next_back = pop back`, `advance_to n = filter (n ≤ ·)`,
-`advance_back_to n = filter (· ≤ n)`, exact `size_hint`) — that is the only hypothesis, hence `_partial`:
-the gap is the instantiation of `S` with the mirrored `bitmap::Iter` model and the C03 theorems (family
-iter32, at merge).  `InnerSpec.list` below shows the hypothesis is satisfiable (the list cursor the driver
-runs).  The abstraction is `Iter.rem = rem front ++ values of the untouched partitions ++ rem back`.
+`advance_back_to n = filter (· ≤ n)`, exact `size_hint`).  The theorems without suffix (`C12_init`, `C12_step`,
+`C12_sizeHint`, `C12_history`, `C12_intoIter`) are **unconditional**: they are about `K32 = Inner.iter32`, the
+mirrored `bitmap::Iter` / `bitmap::IntoIter` model the driver runs, with `S32 = InnerSpec.iter32` proved from
+the C03 theorems (Lemmas/TreemapIter32.lean), for every treemap whose partitions are `Bitmap.WF` (`TWF`).  The abstraction is `Iter.rem = rem front ++ values of the untouched partitions ++ rem back`.
 -/
 namespace Roaring.C12
 open Roaring Roaring.TL Roaring.Treemap Roaring.TIter
@@ -28,7 +29,7 @@ def ItOp.Valid : ItOp → Prop
   | _ => True
 
 /-- MODEL step -/
-def stepM (it : Iter K) : ItOp → Iter K × Option Nat
+def stepM (it : TIter.Iter K) : ItOp → TIter.Iter K × Option Nat
   | .next => it.next
   | .nextBack => it.nextBack
   | .advanceTo n => (it.advanceTo n, none)
@@ -43,27 +44,27 @@ def stepS (s : List Nat) : ItOp → List Nat × Option Nat
 
 /-- `iter()` starts as a cursor over all values of the treemap. -/
 theorem C12_init_partial (t : Treemap) (hw : WFd S.WF t) :
-    (Iter.new (K := K) t).Inv S ∧ (Iter.new (K := K) t).rem S = elems t := Iter.new_spec S hw
+    (TIter.Iter.new (K := K) t).Inv S ∧ (TIter.Iter.new (K := K) t).rem S = elems t := TIter.Iter.new_spec S hw
 
 /-- Every call acts on the remaining values exactly as the specification cursor does: `next` / `next_back`
     pop the smallest / largest remaining value, `advance_to(n)` discards exactly the remaining values `< n`,
     `advance_back_to(n)` exactly those `> n` — whether or not the partition of `n` exists, and wherever the
     two ends currently are. -/
-theorem C12_step_partial (it : Iter K) (h : it.Inv S) (op : ItOp) (hv : op.Valid) :
+theorem C12_step_partial (it : TIter.Iter K) (h : it.Inv S) (op : ItOp) (hv : op.Valid) :
     (stepM it op).1.Inv S ∧ (stepM it op).1.rem S = (stepS (it.rem S) op).1 ∧
       (stepM it op).2 = (stepS (it.rem S) op).2 := by
   cases op with
-  | next => exact Iter.next_spec S it h
-  | nextBack => exact Iter.nextBack_spec S it h
-  | advanceTo n => exact ⟨(Iter.advanceTo_spec S it h n hv).1, (Iter.advanceTo_spec S it h n hv).2, rfl⟩
-  | advanceBackTo n => exact ⟨(Iter.advanceBackTo_spec S it h n hv).1, (Iter.advanceBackTo_spec S it h n hv).2, rfl⟩
+  | next => exact TIter.Iter.next_spec S it h
+  | nextBack => exact TIter.Iter.nextBack_spec S it h
+  | advanceTo n => exact ⟨(TIter.Iter.advanceTo_spec S it h n hv).1, (TIter.Iter.advanceTo_spec S it h n hv).2, rfl⟩
+  | advanceBackTo n => exact ⟨(TIter.Iter.advanceBackTo_spec S it h n hv).1, (TIter.Iter.advanceBackTo_spec S it h n hv).2, rfl⟩
 
 /-- `size_hint()` is exact in both components (the count of a treemap that fits in memory fits `usize`). -/
-theorem C12_sizeHint_partial (it : Iter K) (h : it.Inv S) (hfit : (it.rem S).length ≤ usizeMax) :
-    it.sizeHint = Spec.Cursor64.sizeHint (it.rem S) := Iter.sizeHint_spec S it h hfit
+theorem C12_sizeHint_partial (it : TIter.Iter K) (h : it.Inv S) (hfit : (it.rem S).length ≤ TIter.usizeMax) :
+    it.sizeHint = Spec.Cursor64.sizeHint (it.rem S) := TIter.Iter.sizeHint_spec S it h hfit
 
 /-- run a script, collecting the results -/
-def runM (it : Iter K) : List ItOp → Iter K × List (Option Nat)
+def runM (it : TIter.Iter K) : List ItOp → TIter.Iter K × List (Option Nat)
   | [] => (it, [])
   | op :: ops => let r := stepM it op; let q := runM r.1 ops; (q.1, r.2 :: q.2)
 def runS (s : List Nat) : List ItOp → List Nat × List (Option Nat)
@@ -74,12 +75,12 @@ def runS (s : List Nat) : List ItOp → List Nat × List (Option Nat)
     values returns (so: ascending from the front, descending from the back, each value at most once across
     both ends), and leaves exactly the specified remaining values. -/
 theorem C12_history_partial (t : Treemap) (hw : WFd S.WF t) (ops : List ItOp) (hv : ∀ op ∈ ops, op.Valid) :
-    (runM (Iter.new (K := K) t) ops).1.Inv S ∧
-    (runM (Iter.new (K := K) t) ops).1.rem S = (runS (elems t) ops).1 ∧
-    (runM (Iter.new (K := K) t) ops).2 = (runS (elems t) ops).2 := by
+    (runM (TIter.Iter.new (K := K) t) ops).1.Inv S ∧
+    (runM (TIter.Iter.new (K := K) t) ops).1.rem S = (runS (elems t) ops).1 ∧
+    (runM (TIter.Iter.new (K := K) t) ops).2 = (runS (elems t) ops).2 := by
   obtain ⟨h0, hr0⟩ := C12_init_partial S t hw
   rw [← hr0]
-  generalize Iter.new (K := K) t = it at h0 ⊢
+  generalize TIter.Iter.new (K := K) t = it at h0 ⊢
   induction ops generalizing it with
   | nil => exact ⟨h0, rfl, rfl⟩
   | cons op ops ih =>
@@ -97,10 +98,51 @@ theorem C12_intoIter_partial (t : Treemap) (hw : WFd S.WF t) :
       (it.next.1.Inv S ∧ it.next.1.rem S = (Spec.Cursor64.next (it.rem S)).1 ∧ it.next.2 = (Spec.Cursor64.next (it.rem S)).2) ∧
       (it.nextBack.1.Inv S ∧ it.nextBack.1.rem S = (Spec.Cursor64.nextBack (it.rem S)).1 ∧
         it.nextBack.2 = (Spec.Cursor64.nextBack (it.rem S)).2) ∧
-      ((it.rem S).length < usizeMax →
+      ((it.rem S).length < TIter.usizeMax →
         it.sizeHintPair = (Spec.Cursor64.sizeHint (it.rem S), some (Spec.Cursor64.sizeHint (it.rem S))))) :=
   ⟨(IntoIter.new_spec S hw).1, (IntoIter.new_spec S hw).2, fun it h =>
     ⟨IntoIter.next_spec S it h, IntoIter.nextBack_spec S it h, IntoIter.sizeHint_spec S it h⟩⟩
+
+/-! ### unconditional forms: the mirrored 32-bit iterator as the inner cursor -/
+
+/-- the inner cursor of the executable model: the mirrored `bitmap::Iter` / `bitmap::IntoIter` (Iter.lean) -/
+abbrev K32 : Inner := Inner.iter32
+/-- the C03 cursor laws for it, proved from `C03_init` / `C03_step` -/
+abbrev S32 : InnerSpec K32 := InnerSpec.iter32
+
+/-- `iter()` starts as a cursor over all values of the treemap. -/
+theorem C12_init (t : Treemap) (hw : TWF t) :
+    (TIter.Iter.new (K := K32) t).Inv S32 ∧ (TIter.Iter.new (K := K32) t).rem S32 = elems t :=
+  C12_init_partial S32 t hw
+
+/-- Every call acts on the remaining values exactly as the specification cursor does (see `C12_step_partial`),
+    for all iterator states and all `u64` arguments. -/
+theorem C12_step (it : TIter.Iter K32) (h : it.Inv S32) (op : ItOp) (hv : op.Valid) :
+    (stepM it op).1.Inv S32 ∧ (stepM it op).1.rem S32 = (stepS (it.rem S32) op).1 ∧
+      (stepM it op).2 = (stepS (it.rem S32) op).2 := C12_step_partial S32 it h op hv
+
+/-- `size_hint()` is exact in both components. -/
+theorem C12_sizeHint (it : TIter.Iter K32) (h : it.Inv S32) (hfit : (it.rem S32).length ≤ TIter.usizeMax) :
+    it.sizeHint = Spec.Cursor64.sizeHint (it.rem S32) := C12_sizeHint_partial S32 it h hfit
+
+/-- Any interleaving of calls on `iter()` of a well-formed treemap returns exactly what the specification
+    cursor over its sorted values returns, and leaves exactly the specified remaining values. -/
+theorem C12_history (t : Treemap) (hw : TWF t) (ops : List ItOp) (hv : ∀ op ∈ ops, op.Valid) :
+    (runM (TIter.Iter.new (K := K32) t) ops).1.Inv S32 ∧
+    (runM (TIter.Iter.new (K := K32) t) ops).1.rem S32 = (runS (elems t) ops).1 ∧
+    (runM (TIter.Iter.new (K := K32) t) ops).2 = (runS (elems t) ops).2 := C12_history_partial S32 t hw ops hv
+
+/-- `into_iter()`: starts on all values; `next` / `next_back` pop the two ends; exact `size_hint()`. -/
+theorem C12_intoIter (t : Treemap) (hw : TWF t) :
+    (IntoIter.new (K := K32) t).Inv S32 ∧ (IntoIter.new (K := K32) t).rem S32 = elems t ∧
+    (∀ it : IntoIter K32, it.Inv S32 →
+      (it.next.1.Inv S32 ∧ it.next.1.rem S32 = (Spec.Cursor64.next (it.rem S32)).1 ∧
+        it.next.2 = (Spec.Cursor64.next (it.rem S32)).2) ∧
+      (it.nextBack.1.Inv S32 ∧ it.nextBack.1.rem S32 = (Spec.Cursor64.nextBack (it.rem S32)).1 ∧
+        it.nextBack.2 = (Spec.Cursor64.nextBack (it.rem S32)).2) ∧
+      ((it.rem S32).length < TIter.usizeMax →
+        it.sizeHintPair = (Spec.Cursor64.sizeHint (it.rem S32), some (Spec.Cursor64.sizeHint (it.rem S32))))) :=
+  C12_intoIter_partial S32 t hw
 
 /-- `bitmaps()` yields the partitions in key order from the front and in reverse from the back. -/
 theorem C12_bitmaps (t : Treemap) :
@@ -130,6 +172,20 @@ example : WFd specEx.WF tEx := by
 example : elems tEx = [1, 5, 8589934595, 8589934642, 17179869191] := by decide
 
 /-- the first D5 shape, on the model: `advance_to(2^32+10)` keeps `2^33+3` -/
-example : ((Iter.new (K := Inner.list) tEx).advanceTo 4294967306).next.2 = some 8589934595 := by decide
+example : ((TIter.Iter.new (K := Inner.list) tEx).advanceTo 4294967306).next.2 = some 8589934595 := by decide
+
+/-- the same treemap meets the hypothesis of the unconditional theorems … -/
+theorem tEx_TWF : TWF tEx := by
+  refine ⟨by decide, ?_⟩
+  intro p hp
+  simp only [tEx, List.mem_cons, List.not_mem_nil, or_false] at hp
+  rcases hp with rfl | rfl | rfl <;>
+    exact ⟨by decide, ⟨by decide, by
+      intro c hc
+      simp only [bEx, List.mem_cons, List.not_mem_nil, or_false] at hc
+      subst hc
+      exact ⟨by decide, ⟨by unfold Roaring.Sorted; decide, by decide⟩, by decide, by decide⟩⟩, by decide⟩
+/-- … and the same call on the mirrored 32-bit iterator -/
+example : ((TIter.Iter.new (K := K32) tEx).advanceTo 4294967306).next.2 = some 8589934595 := by decide
 
 end Roaring.C12
